@@ -18,6 +18,11 @@ From Coq Require Import Qcabs.
 From PintV Require Import Model.UC Model.Eval Model.Registry.
 Open Scope string_scope.
 
+Global Instance err_eq_dec : EqDecision err.
+Proof. solve_decision. Defined.
+Global Instance res_eq_dec {A} `{EqDecision A} : EqDecision (res A).
+Proof. solve_decision. Defined.
+
 (** * Affine forms *)
 Notation atom := positive.
 Notation dmap := (gmap positive Qc).      (* must be a notation: stdpp lemmas unify on it *)
